@@ -205,6 +205,23 @@ def run(ctx: core.Ctx):
                 if not ok:
                     ctx.fail(name, dict(config="dask", dims=order, chunks=str(ch), scheduler=sched, workers=nw), "differs" if not isinstance(r, str) else r[:200],
                              "identical to the in-memory result")
+        # two lazy results of the same operation on DIFFERENT cubes evaluated in one dask graph: each equals its own eager result
+        # (a graph key that does not depend on the input would let one replace the other)
+        try:
+            cube_b = np.where(cube == nd, nd, (cube[::-1] + 17) % 7000).astype(cube.dtype)
+            base_b = xr.DataArray(cube_b, dims=("time", "y", "x"), coords=coords, attrs={"nodata": nd})
+            ref_b = op(base_b).compute()
+            for order in (("time", "y", "x"), ("y", "x", "time")):
+                la = op(base.transpose(*order).chunk({"time": -1, "y": 2, "x": 2}))
+                lb = op(base_b.transpose(*order).chunk({"time": -1, "y": 2, "x": 2}))
+                with dask.config.set(scheduler="synchronous"):
+                    ra, rb = dask.compute(la, lb)
+                ctx.case((name, "joint", order))
+                ctx.count("joint evaluation of two cubes")
+                if not (same(ref, ra) and same(ref_b, rb)):
+                    ctx.fail(name, dict(config="two lazy results on different cubes computed in one graph", dims=order), "one result is not that of its own cube", "each equals its own in-memory result")
+        except Exception as e:  # noqa: BLE001
+            ctx.fail(name, dict(config="joint dask.compute of two cubes"), repr(e)[:200], "no exception")
         # chunked time axis: refuse, or compute the same thing
         dd = base.chunk({"time": 5, "y": -1, "x": -1})
         try:
